@@ -95,6 +95,8 @@ def parse_dependencies_from_task_function(
         # one node. If it is a node, we keep it.
         are_all_nodes_python_nodes_without_hash = all(
             isinstance(x, PythonNode) and not x.hash for x in tree_leaves(nodes)
+        ) and not any(
+            isinstance(x, (PNode, PProvisionalNode)) for x in tree_leaves(value)
         )
         if (
             not isinstance(nodes, (PNode, PProvisionalNode))
